@@ -1,4 +1,5 @@
 import PhyloModel.Props.C03
+import PhyloModel.Props.C03Observers
 import PhyloModel.Props.C03Protocol
 #print axioms C03.add_child_preserves
 #print axioms C03.prune_preserves
@@ -11,6 +12,15 @@ import PhyloModel.Props.C03Protocol
 #print axioms C03.depth_counts_edges
 #print axioms C03.one_rooted_tree
 #print axioms C03.no_new_root
+#print axioms C03.child_edge_agrees_with_parent_edge
+#print axioms C03.child_edge_seen_from_child
+#print axioms C03.child_edge_only_for_children
+#print axioms C03.is_root_iff_get_root
+#print axioms C03.is_tip_iff_listed_leaf
+#print axioms C03.get_depth_counts_edges
+#print axioms C03.get_depth_levels_below_root
+#print axioms C03.observers_need_a_live_node
+#print axioms C03.observers_after_every_history
 #print axioms C03.add_child_of_a_copy_preserves
 #print axioms C03.length_overwrite_preserves
 #print axioms C03.every_extended_history
